@@ -54,6 +54,8 @@ def counter_allocators(prog):
     for b in prog.lib_bodies():
         if b.kind == "closure" or b.ret_ty != "usize" or not b.impl:
             continue
+        if not (b.path.startswith("dynamics::") or "<dynamics::" in b.path.split(" as ")[0]):
+            continue  # an id handed out by the label store is no SAT variable
         fields_pushed = set()
         for s in b.calls():
             if callee_matches(callee_of(s), r"^alloc::vec::Vec::push$"):
@@ -121,6 +123,59 @@ def rule_allocators(ctx):
                 others[0][1].loc(),
             )
     r.floor(n_checked, 3, "(holder, counter allocator) pairs")
+    # a counter allocator that follows the solver's count hands out a variable *above* it: the table is padded until its length exceeds
+    # n_vars() before the new entry is pushed (the new variable is the index of that entry)
+    from .grounded import inherited_conditions, _cond_trees, _is_call
+    from .splits import linear
+    from ..prov import show
+
+    def _atom(t):
+        if _is_call(t, r"Vec::len$", 1):
+            return "LEN"
+        if _is_call(t, r"SatSolver::n_vars$"):
+            return "N"
+        return None
+
+    for cf in counters:
+        if not any(callee_matches(callee_of(s), NVARS) for s in cf.calls()):
+            continue
+        pushes = [s for s in cf.calls() if callee_matches(callee_of(s), r"^alloc::vec::Vec::push$") and cf.postdominates(s, (0, -1))]
+        if not pushes:
+            r.ok(cf.id + "|above", "NOT decided: no push of the new entry on every path", cf.loc())
+            continue
+        ps = pushes[-1]
+        best = None
+        seen_cmp = False
+        for e, t in _cond_trees(prog, inherited_conditions(prog, cf, ps.bb)):
+            if e[0] != "op" or e[1] not in ("Lt", "Le", "Gt", "Ge") or len(e[2]) != 2:
+                continue
+            a, b2 = linear(e[2][0], _atom), linear(e[2][1], _atom)
+            if a is None or b2 is None:
+                continue
+            d = dict(a)
+            for k, v in b2.items():
+                d[k] = d.get(k, 0) - v
+            d = {k: v for k, v in d.items() if v != 0}
+            k0 = d.pop(1, 0)
+            op = e[1] if t else {"Lt": "Ge", "Le": "Gt", "Gt": "Le", "Ge": "Lt"}[e[1]]
+            if d == {"LEN": -1, "N": 1}:
+                op = {"Lt": "Gt", "Le": "Ge", "Gt": "Lt", "Ge": "Le"}[op]
+                k0 = -k0
+            elif d != {"LEN": 1, "N": -1}:
+                continue
+            seen_cmp = True
+            # LEN - N + k0 op 0
+            if op == "Ge":
+                lb = -k0
+            elif op == "Gt":
+                lb = -k0 + 1
+            else:
+                continue
+            best = lb if best is None else max(best, lb)
+        if best is None:
+            r.ok(cf.id + "|above", "NOT decided: no comparison of the table length with n_vars() governs the push of the new entry%s" % (" (only upper bounds)" if seen_cmp else ""), ps.loc())
+        else:
+            r.check(best >= 1, cf.id + "|above", "counter-not-above-solver-count:len>=n%+d" % best, "the new variable (index of the pushed entry) is above n_vars(): the table is padded until len >= n_vars() + %d" % best, "the counter allocator pads its table only until its length is n_vars() %+d: the variable it hands out (the index of the next entry) can be one the solver already has - e.g. the selector a search created with `n_vars() + 1`" % best, ps.loc())
 
 
 def id_label_roots(prog, body, idop, depth=0):
@@ -261,6 +316,22 @@ def rule_selector_retirement(ctx):
                         neg = any(callee_matches(callee_of(c), r"sat_solver::Literal::negate$") for c in calls)
                         if neg and derives_from_local(rb, a, 2):
                             ok_unit = True
+        if not ok_unit:
+            # ... or through a helper that adds every clause of the vector it is given: `self.add_clauses(vec![vec![selector_lit.negate()]])`
+            from .dyncnf import adds_clauses_of_param, clauses_of_vec_literal
+
+            for s in rb.calls():
+                t = prog.body_for_callee(callee_of(s), rb) if callee_of(s) else None
+                if t is None or t.kind == "closure" or not t.impl or t.impl.get("self_adt") != owner or not rb.postdominates(s, (0, -1)):
+                    continue
+                kk = adds_clauses_of_param(prog, t)
+                if kk is None or kk - 1 >= len(s.node["args"]):
+                    continue
+                cls = clauses_of_vec_literal(prog, rb, s.node["args"][kk - 1])
+                for co in cls or []:
+                    _, calls, _ = data_deps(rb, co)
+                    if any(callee_matches(callee_of(c), r"sat_solver::Literal::negate$") for c in calls) and derives_from_local(rb, co, 2):
+                        ok_unit = True
         r.check(ok_unit, rb.id, "no-unit-clause", "retiring adds the unit clause of the negated selector on every path", "retiring a selector does not add the unit clause of its negation", rb.loc())
         r.check(rb.postdominates(ru.site, (0, -1)), rb.id, "assumption-kept", "retiring removes the selector from the active assumptions on every path", "a retired selector can stay in the active assumptions", ru.site.loc())
         # called from the re-encoding function on the Some arm of the recorded selector (directly, or through a wrapper of the
@@ -292,6 +363,11 @@ def rule_selector_retirement(ctx):
         for u in field_uses(prog, owner, f, bodies=[reb]):
             if u.mut and u.op.startswith("index_mut>store-through") and u.op.endswith(":Some"):
                 stores.append(u)
+    from .dyncnf import bundled_tables
+
+    if not tbl and bundled_tables(prog, adt):
+        r.ok(reb.id, "NOT decided: the per-argument selector table is a field of the elements of a vector of %s" % bundled_tables(prog, adt)[0][1].rsplit("::", 1)[-1], reb.loc())
+        stores = [None]
     r.check(bool(stores), reb.id, "selector-not-recorded", "the new selector is recorded in the per-argument table", "the new selector is not recorded in the per-argument table", reb.loc())
     # (a) which argument is re-encoded
     n = 0
